@@ -86,7 +86,13 @@ func (w *vWorld) afterFailure(tag string, allocs []Allocation, before worldSnap)
 		p := verifCatch(func() {
 			_, err = w.al.AllocateMemory(&reqs, AllocationCreateInfo{RequiredFlags: core1_0.MemoryPropertyHostVisible | core1_0.MemoryPropertyHostCoherent}, &allocs[i])
 		})
-		verifAssert("C10/"+tag+"/caller-allocation-reusable", verifAnd(!p, err == nil))
+		// (on a device variant with heap size or object count limits the retry may legitimately be refused for lack
+		// of room; then only "no panic" is required)
+		limited := w.maxAllocs < 4096
+		for _, l := range w.heapLimits {
+			limited = limited || l != 0
+		}
+		verifAssert("C10/"+tag+"/caller-allocation-reusable", verifAnd(!p, verifOr(err == nil, limited)))
 		if p || err != nil {
 			return
 		}
